@@ -541,13 +541,16 @@ def gen_c03(seed, tier):
         kw = {}
         if g.rl.chance(0.3):
             kw["extra_certs"] = [9 + i]           # key roll-over in progress: two signing certs published
+        kw["want_authn_requests_signed"] = g.rl.chance(0.3)
+        kw["only_md_keys"] = g.rl.pick([None, None, False])
         idps.append(g.add_idp(i, **kw))
     nsp = g.rl.pick([1, 2])
     sps = []
     for i in range(nsp):
         wrs = g.rl.chance(0.6)
         sps.append(g.add_sp(i, wrs=wrs, was=(not wrs) or g.rl.chance(0.3),
-                            only_md_keys=g.rl.pick([None, True, False, False])))
+                            only_md_keys=g.rl.pick([None, True, False, False]),
+                            sign_requests=g.rl.chance(0.5)))
     g.draw_skews(choices=(0, 0, 1))
     clean = (seed % 4 == 0)
     g.knobs = {"class": "clean" if clean else "faulty"}
@@ -556,7 +559,20 @@ def gen_c03(seed, tier):
         sp, idp = r.pick(sps), r.pick(idps)
         if not clean and r.chance(0.55):
             fk = r.pick(["roll", "roll-keep", "misdeploy-own", "misdeploy-other", "misdeploy-member",
-                         "view-missing", "view-enc-only", "view-other-key", "refresh"])
+                         "view-missing", "view-enc-only", "view-other-key", "refresh", "sp-signs-with-enc-key",
+                         "idp-initiated-encrypted-first"])
+            if fk == "sp-signs-with-enc-key":
+                # the SP's key file is (mis)deployed with its encryption key: requests are signed with a key
+                # the metadata lists for encryption only
+                g.ev("misdeploy", node=sp["name"], key=sp["enc_keys"][0], cert=r.pick(["own", "other"]))
+            elif fk == "idp-initiated-encrypted-first":
+                fu = g.new_flow()
+                pu = {"sign_response": True, "sign_assertion": bool(sp.get("was")), "encrypt": True,
+                      "identity": g.identity(hostile=0.1), "lifetime": 3600}
+                g.ev("unsol", f=fu, idp=idp["name"], sp=sp["name"], p=pu, sub=g.sub())
+                g.tick()
+                g.ev("resp", f=fu, r=0, sub=g.sub())
+                g.tick()
             if fk in ("roll", "roll-keep"):
                 g.ev("roll", idp=idp["name"], new_key=r.pick([9, 10, 11]), keep_old=(fk == "roll-keep"))
             elif fk.startswith("misdeploy"):
@@ -573,11 +589,21 @@ def gen_c03(seed, tier):
             elif fk == "view-other-key":
                 g.ev("setview", node=sp["name"], peer=idp["name"], spec=dict(idp, key=r.pick([9, 10, 11])))
             elif fk == "refresh":
-                g.ev("refresh", node=sp["name"])
+                g.ev("refresh", node=sp["name"], inplace=r.chance(0.6))
             g.tick()
         p = g.sign_params(sp, enc_ok=r.chance(0.2))
         p["identity"] = g.identity(hostile=0.1)
         p["lifetime"] = 3600
+        if not clean and r.chance(0.25):
+            # claimed Issuer x actual signing key: this IdP asserts under another federation member's name
+            other = r.pick([x for x in idps if x is not idp])
+            which = r.pick(["both", "response", "assertion"])
+            d = {}
+            if which in ("both", "response"):
+                d["resp_issuer"] = fed.idp_entity(other["name"])
+            if which in ("both", "assertion"):
+                d["assertion_issuer"] = fed.idp_entity(other["name"])
+            p["dialect"] = d
         g.login(sp, idp, p)
     return g.scenario()
 
@@ -617,9 +643,22 @@ def gen_c17(seed, tier):
             g.login(sp, idp, p)
             continue
         fk = r.pick(["stale-enc-second", "stale-enc-none", "expire", "foreign-audience", "unsolicited-replay",
-                     "handover", "misdeliver", "scd-irt", "missing-assertion-sig", "dup"])
+                     "handover", "misdeliver", "scd-irt", "missing-assertion-sig", "dup", "enc-cert-appears",
+                     "enc-cert-appears"])
         kw = {}
         after = []
+        if fk == "enc-cert-appears":
+            # the long-running IdP first knows the SP without any encryption certificate (nothing can be
+            # encrypted for it - out of scope), then reloads the SP's metadata in place: from now on a
+            # request to encrypt must be honoured
+            g.ev("setview", node=idp["name"], peer=sp["name"], spec=dict(sp, enc_keys=[]), inplace=r.chance(0.5))
+            g.tick()
+            p0 = dict(p, identity=g.identity(hostile=0.3, empty_ok=False))
+            g.login(sp, idp, p0)
+            g.ev("refresh", node=idp["name"], inplace=True)
+            g.tick()
+            g.login(sp, idp, p)
+            continue
         if fk == "stale-enc-second" and len(sp["enc_keys"]) > 1:
             g.ev("setview", node=idp["name"], peer=sp["name"], spec=dict(sp, enc_keys=[sp["enc_keys"][1]]))
             after.append(("refresh", {"node": idp["name"]}))
